@@ -2374,7 +2374,7 @@ var defKinds = [instrMax]defKind{
 	fcvtToSintSequence:     defKindNone,
 	defineUninitializedReg: defKindOp2,
 	fcvtToUintSequence:     defKindNone,
-	xmmCMov:                defKindOp2,
+	xmmCMov:                defKindNone, // the destination keeps its value when the condition is false: it is used, not defined.
 	idivRemSequence:        defKindDivRem,
 	blendvpd:               defKindNone,
 	mfence:                 defKindNone,
@@ -2460,7 +2460,7 @@ var useKinds = [instrMax]useKind{
 	fcvtToSintSequence:     useKindFcvtToSintSequence,
 	defineUninitializedReg: useKindNone,
 	fcvtToUintSequence:     useKindFcvtToUintSequence,
-	xmmCMov:                useKindOp1,
+	xmmCMov:                useKindOp1Op2Reg,
 	idivRemSequence:        useKindDivRem,
 	blendvpd:               useKindBlendvpd,
 	mfence:                 useKindNone,
